@@ -53,6 +53,7 @@ var Mutants = map[string][]Mutant{
 		{"Paths.Settle ignores its rule", "path_intersection.go", `return bentleyOttmann\(ps, nil, opSettle, fillRule\)`, `return bentleyOttmann(ps, nil, opSettle, NonZero)`, "E9.wrapper"},
 	},
 	"C03": {
+		{"second root re-mapped whenever the roots are ordered", "path_util.go", `(?s)\tsplit := false\n(.*?)\t\tsplit = true\n(.*?)\t\tif split \{\n\t\t\tt2 = \(t2 - t1\)`, "${1}${2}\t\tif t1 < t2 {\n\t\t\tt2 = (t2 - t1)", "E11.remap-iff-split"},
 		{"circular arc flattener drops the rotation", "path_util.go", `\t\ttheta0 \+= phi\n\t\ttheta1 \+= phi\n\n\t\t// draw line segments from arc\+tolerance`, "\n\t\t// draw line segments from arc+tolerance", "E3.arc-angle-frame"},
 		{"arc flattener loses its tolerance clamp", "path_util.go", `\ttolerance = math\.Max\(tolerance, Epsilon\) // a zero tolerance gives an infinite number of segments\n`, "", "E4.step-progress"},
 		{"quadratic flattener loses its tolerance clamp", "path_util.go", `(2005,  https://www\.sciencedirect\.com/science/article/pii/S0097849305001287\n)\ttolerance = math\.Max\(tolerance, Epsilon\)[^\n]*\n(\tt := 0\.0\n\tp := &Path\{\}\n\tp\.MoveTo\(p0\.X, p0\.Y\)\n\tfor t < 1\.0 \{\n\t\tD := p1\.Sub\(p0\))`, "${1}${2}", "E4.step-progress"},
@@ -64,6 +65,7 @@ var Mutants = map[string][]Mutant{
 		{"ToPDF forgets ReplaceArcs", "path.go", `\tp = p\.ReplaceArcs\(\)\n\n\tsb := strings\.Builder\{\}\n\tvar x, y float64\n\tfor i := 0; i < len\(p\.d\); \{\n\t\tcmd := p\.d\[i\]\n\t\tswitch cmd \{\n\t\tcase MoveToCmd:\n\t\t\tx, y = p\.d\[i\+1\], p\.d\[i\+2\]\n\t\t\tfmt\.Fprintf\(&sb, " %v %v m"`, "\tsb := strings.Builder{}\n\tvar x, y float64\n\tfor i := 0; i < len(p.d); {\n\t\tcmd := p.d[i]\n\t\tswitch cmd {\n\t\tcase MoveToCmd:\n\t\t\tx, y = p.d[i+1], p.d[i+2]\n\t\t\tfmt.Fprintf(&sb, \" %v %v m\"", "E10.consumer"},
 	},
 	"C04": {
+		{"miter limit compared with the signed miter length", "path_stroke.go", `limit\*halfWidth < math\.Abs\(d\)`, "limit*halfWidth < d", "E11.signed-magnitude"},
 		{"join test compares the end normals of both segments", "path_stroke.go", `if !cur\.n1\.Equals\(next\.n0\) \{`, "if !cur.n1.Equals(next.n1) {", "E11.junction-pairing"},
 		{"offset radii passed untested to the radii correction", "path_stroke.go", `\t\t\tif !Equal\(cur\.rx-dr, 0\.0\) && !Equal\(cur\.ry-dr, 0\.0\) \{\n(\t\t\t\tlLambda = [^\n]*\n)\t\t\t\}\n`, "${1}", "E4.radii-nonzero"},
 		{"offset keeps the arc rotation in radians", "path_stroke.go", `(?s)rot:    phi \* 180\.0 / math\.Pi,(.*?)cur\.rot\*math\.Pi/180\.0, rEnd\)(.*?)cur\.rot\*math\.Pi/180\.0, lEnd\)`, "rot:    phi,${1}cur.rot, rEnd)${2}cur.rot, lEnd)", "E8.units"},
@@ -74,6 +76,7 @@ var Mutants = map[string][]Mutant{
 		{"closed flag also set by MoveTo", "path_stroke.go", `\t\tcase MoveToCmd:\n\t\t\tend = Point\{p\.d\[i\+1\], p\.d\[i\+2\]\}\n\t\tcase LineToCmd:\n\t\t\tend = Point\{p\.d\[i\+1\], p\.d\[i\+2\]\}\n\t\t\tn := end`, "\t\tcase MoveToCmd:\n\t\t\tend = Point{p.d[i+1], p.d[i+2]}\n\t\t\tclosed = false\n\t\tcase LineToCmd:\n\t\t\tend = Point{p.d[i+1], p.d[i+2]}\n\t\t\tn := end", "E11.cap-join"},
 	},
 	"C05": {
+		{"line case claims [T, T+dT) while the curves claim (T, T+dT]", "path.go", `(?s)(dT := end\.Sub\(start\)\.Length\(\)\n\t\t\t\t\tTcurve := T\n\t\t\t\t\t)for j < len\(ts\) && T < ts\[j\] && ts\[j\] <= T\+dT \{`, "${1}for j < len(ts) && T <= ts[j] && ts[j] < T+dT {", "E11.cut-interval"},
 		{"quad cut loop carries the relative parameter", "path.go", `(?s)(\t\t\t\t\tr0, r1, r2 := start, cp, end\n.*?)\t\t\t\t\t\tt := invL\(ts\[j\] - T\)\n\t\t\t\t\t\ttsub := \(t - t0\) / \(1\.0 - t0\)\n\t\t\t\t\t\tt0 = t\n`, "${1}\t\t\t\t\t\ttsub := (invL(ts[j]-T) - t0) / (1.0 - t0)\n\t\t\t\t\t\tt0 = tsub\n", "E11.cut-carried"},
 		{"SplitAt's line case leaves the iteration early without advancing", "path.go", `\t\t\t\t\tif Tcurve < T\+dT \{\n\t\t\t\t\t\tq\.LineTo\(end\.X, end\.Y\)\n\t\t\t\t\t\}\n\t\t\t\t\tT \+= dT\n`, "\t\t\t\t\tif Tcurve < T+dT {\n\t\t\t\t\t\tq.LineTo(end.X, end.Y)\n\t\t\t\t\t} else {\n\t\t\t\t\t\ti += cmdLen(cmd)\n\t\t\t\t\t\tstart = end\n\t\t\t\t\t\tcontinue\n\t\t\t\t\t}\n\t\t\t\t\tT += dT\n", "E2.accumulator-advance"},
 		{"SplitAt copies an uncut quad without adding its length", "path.go", `\t\t\t\tif j == len\(ts\) \{\n\t\t\t\t\tq\.QuadTo\(cp\.X, cp\.Y, end\.X, end\.Y\)`, "\t\t\t\tif j == len(ts) || T+quadraticBezierLength(start, cp, end) < ts[j] {\n\t\t\t\t\tq.QuadTo(cp.X, cp.Y, end.X, end.Y)", "E2.accumulator-advance"},
@@ -86,6 +89,7 @@ var Mutants = map[string][]Mutant{
 		{"arc cut relative to the arc start", "path.go", `ellipseSplit\(rx, ry, phi, cx, cy, startTheta, theta2, theta\)`, `ellipseSplit(rx, ry, phi, cx, cy, theta1, theta2, theta)`, "E11.cut-carried"},
 	},
 	"C06": {
+		{"CCW takes the arriving curvature without reversing it", "path.go", `curvPrev := -p\.curvature\(kPrev, 1\.0\)`, "curvPrev := p.curvature(kPrev, 1.0)", "E11.reversed-frame"},
 		{"intersection parameters snapped by exact comparison only", "path_intersection_util.go", `\} else if 1\.0 < tb \|\| Equal\(tb, 1\.0\) \{`, "} else if 1.0 < tb {", "E9.endpoint-snap"},
 		{"ellipse hit flagged tangent by the value of the root", "path_intersection_util.go", `\t\ttangent := len\(roots\) == 1 // the line touches the ellipse[^\n]*\n`, "\t\ttangent := Equal(root, 0.0)\n", "E9.tangent-from-roots"},
 		{"Filling prunes enclosers by the fast bounds of the inner sub-path", "path.go", `(?s)(func \(p \*Path\) Filling\(fillRule FillRule\) \[\]bool \{.*?)\t\t\tif i == j \{`, "${1}\t\t\tif i == j || !pj.FastBounds().Contains(pi.FastBounds()) {", "E3.containment-filter"},
@@ -146,6 +150,7 @@ var Mutants = map[string][]Mutant{
 		{"Close retags one end only", "path.go", `\t\tp\.d\[len\(p\.d\)-1\] = CloseCmd\n\t\tp\.d\[len\(p\.d\)-cmdLen\(LineToCmd\)\] = CloseCmd\n`, "\t\tp.d[len(p.d)-1] = CloseCmd\n", "E2.retag"},
 	},
 	"C11": {
+		{"implicit lineto after m read as absolute", "path.go", `(?s)(p1 = p1\.Add\(p0\)\n\t\t\t\t)cmd = 'l'`, "${1}cmd = 'L'", "E11.implicit-command"},
 		{"sub-path start remembered before the relative offset", "path.go", `(?s)(\tvar p0, p1) (Point\n\tprevCmd := byte\('z'\).*?\t\t\tp1 = Point\{f\[0\], f\[1\]\}\n)(\t\t\tif cmd == 'm' \{.*?)\t\t\tp1 = p\.StartPos\(\)\n`, "${1}, start ${2}\t\t\tstart = p1\n${3}\t\t\tp1 = start\n", "E11.relative-before-use"},
 		{"number table becomes a 128-entry array", "path.go", `cmdLens := map\[byte\]int\{`, "cmdLens := [128]int{", "E4.table-index"},
 		{"dec prints Precision decimals again", "util.go", `\ts := fmt\.Sprintf\("%\.\*f", decimals, f\)\n`, "\ts := fmt.Sprintf(\"%.*f\", Precision, f)\n\t_ = decimals\n", "E11.precision-unit"},
@@ -159,13 +164,18 @@ var Mutants = map[string][]Mutant{
 		{"number table larger than the buffer", "path.go", `\t\t'A': 7,\n`, "\t\t'A': 8,\n", "E4.table-bound"},
 	},
 	"C12": {
+		{"SVG stroke outline takes the path's fill rule", "renderers/svg/svg.go", `\t\t// the outline of a stroke overlaps itself, it is always filled non-zero \(the default\)\n`, "\t\tif style.FillRule == canvas.EvenOdd {\n\t\t\tfmt.Fprintf(r.w, `\" fill-rule=\"evenodd`)\n\t\t}\n", "E6.outline-nonzero"},
+		{"PDF stroke outline filled even-odd", "renderers/pdf/pdf.go", `(?s)(r\.w\.Write\(\[\]byte\(path\.Transform\(m\)\.ToPDF\(\)\)\)\n\t\t)r\.w\.Write\(\[\]byte\(" f"\)\)`, "${1}r.w.Write([]byte(\" f*\"))", "E6.outline-nonzero"},
+		{"trailing constant piece of a gradient without its bound", "renderers/pdf/writer.go", `\t\tbounds = append\(bounds, stops\[len\(stops\)-1\]\.Offset\)\n`, "", "E5.stitching-arity"},
+		{"every stop pair adds a bound, also the first", "renderers/pdf/writer.go", `(?s)\t\tif i != 0 \{\n\t\t\tbounds = append\(bounds, stops\[i\]\.Offset\)\n\t\t\}\n`, "\t\tbounds = append(bounds, stops[i].Offset)\n", "E5.stitching-arity"},
+		{"PostScript colour cache compared across colour models", "renderers/ps/ps.go", `if prev := toNRGBA\(r\.paint\.Color\); color\.R != prev\.R \|\| color\.G != prev\.G \|\| color\.B != prev\.B \{`, "if color.R != r.paint.Color.R || color.G != r.paint.Color.G || color.B != r.paint.Color.B {", "E6.color-model-compare"},
 		{"faux bold writes its stroke width directly", "renderers/pdf/pdf.go", `\t\t\t\tr\.w\.SetLineWidth\(span\.Face\.FauxBold \* 2\.0\)\n`, "\t\t\t\tr.w.Write([]byte(\" .04 w\"))\n", "E6.operator-through-setter"},
 		{"IsSimilarity tests row lengths and the column dot product", "util.go", `(?s)(func \(m Matrix\) IsSimilarity\(\) bool \{.*?)\tc := m\[0\]\[0\]\*m\[1\]\[0\] \+ m\[0\]\[1\]\*m\[1\]\[1\]\n`, "${1}\tc := m[0][0]*m[0][1] + m[1][0]*m[1][1]\n", "E11.gram-consistency"},
 		{"PDF SetFill restores the opacity only for a changed paint", "renderers/pdf/writer.go", `(?s)\t\tw\.fill = fill\n\t\}\n\n[^\n]*\n\tif fill\.IsGradient\(\) \{\n\t\tw\.SetAlpha\(1\.0\)\n\t\} else if fill\.IsColor\(\) \{\n\t\tw\.SetAlpha\(float64\(fill\.Color\.A\) / 255\.0\)\n\t\}\n`, "\t\tw.fill = fill\n\t\tif fill.IsColor() {\n\t\t\tw.SetAlpha(float64(fill.Color.A) / 255.0)\n\t\t}\n\t}\n", "E6.memo-shared-state"},
 		{"miter limit only checked when the join is unchanged", "renderers/pdf/writer.go", `\t\tw\.lineJoin = lineJoin\n\t\}\n\tif lineJoin == 0 && miterLimit != w\.miterLimit \{`, "\t\tw.lineJoin = lineJoin\n\t} else if lineJoin == 0 && miterLimit != w.miterLimit {", "E6.memo-independent"},
 		{"PS writes a miter with a round gap natively", "renderers/ps/ps.go", "\\} else if _, ok := miter\\.GapJoiner\\.\\(canvas\\.BevelJoiner\\); !ok \\{\\n\\t\\t\\tstrokeUnsupported = true", "} else if miter.GapJoiner == nil {\n\t\t\tstrokeUnsupported = true", "E6.joiner-support"},
 		{"PDF writes arcs joins natively", "renderers/pdf/pdf.go", `if _, ok := style\.StrokeJoiner\.\(canvas\.ArcsJoiner\); ok \{\n\t\tstrokeUnsupported = true`, "if arcs, ok := style.StrokeJoiner.(canvas.ArcsJoiner); ok && math.IsNaN(arcs.Limit) {\n\t\tstrokeUnsupported = true", "E6.joiner-support"},
-		{"PDF dash phase normalised before odd-length doubling", "renderers/pdf/writer.go", `(\tif len\(dashArray\)%2 == 1 \{\n\t\tdashArray = append\(dashArray, dashArray\.\.\.\)\n\t\}\n)\n((?:.*\n){10})\n\tdashes := append\(dashArray, dashPhase\)`, "$2\n$1\n\tdashes := append(dashArray, dashPhase)", "E6.dash-period"},
+		{"PDF dash phase normalised before odd-length doubling", "renderers/pdf/writer.go", `(\tif len\(dashArray\)%2 == 1 \{\n\t\tdashArray = append\(dashArray, dashArray\.\.\.\)\n\t\}\n)\n((?:.*\n){10,16}?)\n\tdashes := append\(dashArray, dashPhase\)`, "$2\n$1\n\tdashes := append(dashArray, dashPhase)", "E6.dash-period"},
 		{"gradient bounds use a fixed stop", "renderers/pdf/writer.go", `bounds = append\(bounds, stops\[i\]\.Offset\)`, "bounds = append(bounds, stops[1].Offset)", "E11.const-index-in-loop"},
 		{"PS fill colour set after gsave", "renderers/ps/ps.go", `\t\tr\.setPaint\(style\.Fill\)\n\t\tif style\.HasStroke\(\) && !strokeUnsupported \{\n\t\t\tr\.w\.Write\(\[\]byte\(" gsave"\)\)\n\t\t\}\n`, "\t\tif style.HasStroke() && !strokeUnsupported {\n\t\t\tr.w.Write([]byte(\" gsave\"))\n\t\t}\n\t\tr.setPaint(style.Fill)\n", "E6.ps-grammar"},
 		{"PDF image opacity set inside q/Q again", "renderers/pdf/writer.go", `\tm = m\.Scale\(float64\(size\.X\), float64\(size\.Y\)\)\n\tfmt\.Fprintf\(w, " %v %v %v %v %v %v cm /%v Do Q"`, "\tm = m.Scale(float64(size.X), float64(size.Y))\n\tw.SetAlpha(0.5)\n\tfmt.Fprintf(w, \" %v %v %v %v %v %v cm /%v Do Q\"", "E5.grammar"},
@@ -265,6 +275,8 @@ var Mutants = map[string][]Mutant{
 		{"vertical fonts written as horizontal", "renderers/pdf/writer.go", `w\.writeFonts\(w\.fontsV, true\)`, `w.writeFonts(w.fontsV, false)`, "E5.fontmaps"},
 	},
 	"C19": {
+		{"importer without the hash-token branch", "svg.go", `(?s)\} else if t\.TokenType == css\.HashToken \{.*?\n\t\t\t\t\} else if`, "} else if", "E11.selector-hash"},
+		{"id selector keeps the leading #", "svg.go", `attr: "id", val: string\(t\.Data\[1:\]\)`, `attr: "id", val: string(t.Data)`, "E11.selector-hash"},
 		{"class selector looks at the first word only", "svg.go", `(?s)\t\tfor _, val := range vals \{\n\t\t\tif val != "" && val == sel\.val \{\n\t\t\t\treturn true\n\t\t\t\}\n\t\t\}\n\t\treturn false\n`, "\t\treturn len(vals) > 0 && vals[0] == sel.val\n", "E11.word-list-match"},
 		{"style-sheet rules applied before the attributes", "svg.go", `(?s)(\t// apply presentation attributes in order\n\tfor _, prop := range props \{\n\t\tif prop\.key != "style" \{\n\t\t\tsvg\.setAttribute\(prop\.key, prop\.val\)\n\t\t\}\n\t\}\n\n)(\t// apply CSS from <style>\n.*?\n\t\}\n\n)(\t// apply the style attribute)`, "${2}${1}${3}", "E11.svg-cascade"},
 		{"transform names trimmed of white space only", "svg.go", "fun = strings\\.ToLower\\(strings\\.Trim\\(v\\[j:i\\], \" \\\\t\\\\r\\\\n,\"\\)\\)", "fun = strings.ToLower(strings.TrimSpace(v[j:i]))", "E11.svg-transform-separator"},
